@@ -206,17 +206,28 @@ register(Contract(
 
 register(Contract(
     key=FSH + "__scan_from_stdin", properties=["C15", "C10", "C16", "C18"],
-    ghost={"g_stdin_ok": "bool", "g_files": "Set[str]"},
-    requires=[f"scheme_ok({SCHEME})", "not g_stdin_ok"],
+    ghost={"g_stdin_ok": "bool", "g_files": "Set[str]", "g_spool": "List[str]", "g_scanned": "List[Any]"},
+    requires=[f"scheme_ok({SCHEME})", "not g_stdin_ok", "is_empty(g_spool)", "is_empty(g_scanned)"],
     types={"args": "Namespace", "outfile": "TempFile"},
-    calls={"self.__scan_specific_file": (FSH + "__scan_specific_file", ["g_stdin_ok = result"]),
-           "outfile.write": "TempFile.write"},
+    calls={"self.__scan_specific_file": (FSH + "__scan_specific_file", ["g_stdin_ok = result", "g_scanned.append((next_file, next_file_name))"]),
+           "outfile.write": ("TempFile.write", ["g_spool.append(text)"])},
     ensures=["forall_val(lambda x: (x in g_files) == old(x in g_files))",       # C10/C15: the spool file is removed on every normal exit
-             "result == g_stdin_ok", MONO],             # the outcome of the scan of the spooled input is handed back
+             "result == g_stdin_ok", MONO,              # the outcome of the scan of the spooled input is handed back
+             # C16: the string given through the API (or, without one, every line of standard input, in order) is spooled unchanged,
+             # and the spool file is then scanned by the SAME per-file function as a named file; only the reported name differs
+             "implies(string_to_scan is not None and len(string_to_scan) > 0, len(g_spool) == 1 and g_spool[0] is string_to_scan)",
+             "implies(string_to_scan is None or len(string_to_scan) == 0, len(g_spool) == old(len(sys.stdin)) and "
+             "forall(lambda k: g_spool[k] is old(sys.stdin[k]), 0, old(len(sys.stdin))))",
+             "len(g_scanned) <= 1",
+             "implies(len(g_scanned) == 1, g_scanned[0][1] == ('stdin' if string_to_scan is None else 'in-memory'))"],
     xensures={"BaseException": ["forall_val(lambda x: (x in g_files) == old(x in g_files))", MONO]},  # ... and on every exceptional exit
     raises=[Raises("SystemExit", code=SYSERR), Raises("BadTokenizationError", when="not self.__continue_on_error"),
             Raises("UnicodeError"), Raises("ValueError")],
-    modifies=["*", "g_stdin_ok", "g_files.$dict", "number_of_scan_failures"],
+    modifies=["*", "g_stdin_ok", "g_files.$dict", "number_of_scan_failures", "g_spool.$list", "g_scanned.$list"],
+    loops={0: Loop(index="idx", frozen_iter="sys.stdin is read once, front to back", invariant=[
+        "len(g_spool) == idx", "forall(lambda k: g_spool[k] is old(sys.stdin[k]), 0, idx)", "is_empty(g_scanned)", "not g_stdin_ok",
+        "temporary_file is outfile.name", "temporary_file in g_files", "forall_val(lambda x: implies(x != temporary_file, (x in g_files) == old(x in g_files)))",
+        "not old(temporary_file in g_files)"])},
 ))
 
 FIX_RAISES = [Raises("BadPluginError"), Raises("BadPluginFixError"), Raises("BadTokenizationError"), Raises("OSError"),
